@@ -486,6 +486,13 @@ func (r *Runner) reopen(ro *Reopen) *Violation {
 		if ro.NewMax == 0 {
 			opts.Flags |= txfile.FlagUnboundMaxSize
 		}
+	case 3:
+		// a max size WITHOUT FlagUpdMaxSize: on a file that is unbounded on disk it is an
+		// in-memory limit for this session only; on a bounded file it is ignored
+		if min := uint(65536 / r.P.Cfg.PageSize); ro.NewMax < min {
+			ro = &Reopen{Mode: 3, NewMax: min}
+		}
+		opts.MaxSize = uint64(ro.NewMax) * uint64(r.P.Cfg.PageSize)
 	}
 	beginIdx := 0
 	if r.O.TrackCommits && ro.Mode == 2 {
@@ -519,6 +526,24 @@ func (r *Runner) reopen(ro *Reopen) *Violation {
 		r.count("resize")
 	}
 	after := f.VerifState()
+	if ro.Mode != 2 {
+		// the limit in effect: the one stored in the file, or (unbounded file) the option's
+		wantPages := uint(before.HdrMaxSize / uint64(r.P.Cfg.PageSize))
+		if before.PageSize != 0 && before.HdrMaxSize == 0 && ro.Mode == 3 {
+			wantPages = ro.NewMax
+			r.count("reopen-inmemory-limit")
+		}
+		if before.PageSize != 0 { // a file was open before
+			if after.HdrMaxSize != before.HdrMaxSize {
+				return violationf("reopen-limit", r.curItem, "open without FlagUpdMaxSize changed the max size stored in the file from %d to %d", before.HdrMaxSize, after.HdrMaxSize)
+			}
+			if after.MaxPages != wantPages {
+				return violationf("reopen-limit", r.curItem, "open (mode %d, option max size %d, stored max size %d): allocator limit is %d pages, expected %d",
+					ro.Mode, opts.MaxSize, before.HdrMaxSize, after.MaxPages, wantPages)
+			}
+			r.curMax = wantPages
+		}
+	}
 	if ro.Mode == 2 && r.O.CheckResize {
 		if v := r.checkLockIdle(); v != nil {
 			v.Msg = "right after opening with a new maximum size: " + v.Msg
@@ -542,9 +567,20 @@ func (r *Runner) reopen(ro *Reopen) *Violation {
 			switch {
 			case ro.NewMax > oldMax && uint(before.DataEnd) <= oldMax:
 				r.count("resize-grow")
-				if n-probeBefore != int(ro.NewMax)-int(oldMax) {
-					return violationf("resize-grow", r.curItem, "maximum grew from %d to %d pages, but allocatable pages changed from %d to %d (expected +%d)",
-						oldMax, ro.NewMax, probeBefore, n, int(ro.NewMax)-int(oldMax))
+				// pages of the overflow area (beyond the old limit, in use by the meta area
+				// already) are not additional space
+				usedEnd := oldMax
+				if uint(before.MetaEnd) > usedEnd {
+					usedEnd = uint(before.MetaEnd)
+					r.count("resize-grow-with-overflow-area")
+				}
+				want := int(ro.NewMax) - int(usedEnd)
+				if want < 0 {
+					want = 0
+				}
+				if n-probeBefore != want {
+					return violationf("resize-grow", r.curItem, "maximum grew from %d to %d pages (file end before: %d), but allocatable pages changed from %d to %d (expected +%d)",
+						oldMax, ro.NewMax, usedEnd, probeBefore, n, want)
 				}
 			case ro.NewMax < oldMax:
 				r.count("resize-shrink")
@@ -566,7 +602,7 @@ func (r *Runner) reopen(ro *Reopen) *Violation {
 			r.count("resize-unbounded")
 		}
 	}
-	if ro.Mode != 2 && r.O.CheckReopenState {
+	if ro.Mode != 2 && r.O.CheckReopenState && before.MaxPages == after.MaxPages {
 		if msg := compareSnapshotsExact(&before, &after); msg != "" {
 			return violationf("reopen-state", r.curItem, "internal state differs across close/open: %s", msg)
 		}
@@ -731,6 +767,9 @@ func (r *Runner) runTx(idx int, tx *Tx) *Violation {
 		WALLimit:               tx.WALLimit,
 		MetaAreaGrowPercentage: tx.GrowPct,
 		EnableOverflowArea:     tx.Overflow,
+	}
+	if tx.Overflow && r.resize != nil {
+		r.resize.overflow = true
 	}
 	if r.O.Faults {
 		r.txFaultOver = r.Disk.FaultOver()
@@ -1446,7 +1485,7 @@ func (r *Runner) quiescentChecks() *Violation {
 			return v
 		}
 	}
-	if r.O.CheckResize && r.resize != nil && r.resize.newMax > 0 {
+	if r.O.CheckResize && r.resize != nil && r.resize.newMax > 0 && !r.resize.overflow {
 		limit := int64(r.resize.newMax) * int64(r.P.Cfg.PageSize)
 		if r.resize.extentBefore > limit {
 			limit = r.resize.extentBefore
@@ -1595,4 +1634,5 @@ func CheckPartition(s *txfile.VerifSnapshot, m *MState, item int, coverage bool)
 type resizeInfo struct {
 	oldMax, newMax uint
 	extentBefore   int64
+	overflow       bool // a transaction enabled the overflow area since: the file may exceed the limit by design
 }
